@@ -306,10 +306,120 @@ func (h *Hist) Replay(ops []Hop) {
 }
 
 // Random issues up to nops random requests (stops growing the DAG at maxNodes versions).
+// LineageMerge: a directed burst built from the ordinary requests (so the model follows it like any other
+// history): two or three sibling branches off a committed node, each taken through its own short lineage of
+// versions in which one key is written, deleted, written again or left alone; the branch heads are merged in
+// a random parent order; at the merge node the key is then deleted, rewritten or left alone and read, and a
+// child of the merge reads it again.  Shapes the uniform generator reaches rarely: a deletion re-created
+// further down one lineage, a value reachable past a deletion through another parent, an unresolved
+// conflict deleted or overwritten at the merge node itself.
+func (h *Hist) LineageMerge(nkeys, maxNodes int) {
+	rng := h.Rng
+	lk := h.LockedList()
+	if len(lk) == 0 {
+		open := h.OpenList()
+		if len(open) == 0 {
+			return
+		}
+		h.Commit(open[rng.Intn(len(open))])
+		lk = h.LockedList()
+		if len(lk) == 0 {
+			return
+		}
+	}
+	base := lk[rng.Intn(len(lk))]
+	k := rng.Intn(nkeys)
+	forced := rng.Chance(0.5) // every lineage ends with a write of k: an unresolved conflict at the merge
+	nb := 2
+	if rng.Chance(0.3) {
+		nb = 3
+	}
+	var heads []int
+	for b := 0; b < nb && len(h.UUIDs)+2 < maxNodes; b++ {
+		n0 := len(h.UUIDs)
+		h.Child("branch", []int{base})
+		if len(h.UUIDs) == n0 {
+			return
+		}
+		cur := len(h.UUIDs)
+		depth := 1 + rng.Intn(3)
+		for d := 0; d < depth; d++ {
+			switch rng.Intn(4) {
+			case 0:
+				h.Put(k, cur)
+			case 1:
+				h.Del(k, cur)
+			case 2:
+				h.Put(rng.Intn(nkeys), cur)
+			}
+			last := !(d+1 < depth && len(h.UUIDs)+nb < maxNodes)
+			if forced && last {
+				h.Put(k, cur)
+			}
+			h.Commit(cur)
+			if d+1 < depth && len(h.UUIDs)+nb < maxNodes {
+				n1 := len(h.UUIDs)
+				h.Child("newversion", []int{cur})
+				if len(h.UUIDs) == n1 {
+					break
+				}
+				cur = len(h.UUIDs)
+			} else {
+				break
+			}
+		}
+		heads = append(heads, cur)
+	}
+	if len(heads) < 2 {
+		return
+	}
+	for i := len(heads) - 1; i > 0; i-- {
+		j := rng.Intn(i + 1)
+		heads[i], heads[j] = heads[j], heads[i]
+	}
+	n2 := len(h.UUIDs)
+	h.Child("merge", heads)
+	if len(h.UUIDs) == n2 {
+		return
+	}
+	m := len(h.UUIDs)
+	h.Get(k, m)
+	switch rng.Intn(3) {
+	case 0:
+		h.Del(k, m)
+	case 1:
+		h.Put(k, m)
+	}
+	h.Get(k, m)
+	if rng.Chance(0.5) && len(h.UUIDs) < maxNodes {
+		h.Commit(m)
+		n3 := len(h.UUIDs)
+		h.Child("newversion", []int{m})
+		if len(h.UUIDs) > n3 {
+			h.Get(k, len(h.UUIDs))
+		}
+	}
+}
+
+// Bursts: a history made of n lineage-merge bursts with a few ordinary requests in between.
+func (h *Hist) Bursts(n, nkeys, maxNodes int) {
+	for i := 0; i < n && len(h.UUIDs)+4 <= maxNodes; i++ {
+		h.LineageMerge(nkeys, maxNodes)
+		open := h.OpenList()
+		if len(open) > 0 && h.Rng.Chance(0.5) {
+			h.Commit(open[h.Rng.Intn(len(open))])
+		}
+	}
+}
+
 func (h *Hist) Random(nops, nkeys, maxNodes int) {
 	rng := h.Rng
 	for i := 0; i < nops; i++ {
 		open, lk := h.OpenList(), h.LockedList()
+		if rng.Chance(0.04) && len(h.UUIDs)+4 <= maxNodes {
+			h.LineageMerge(nkeys, maxNodes)
+			continue
+		}
 		switch x := rng.Intn(100); {
 		case x < 30 && len(open) > 0:
 			if !h.NoBatch && rng.Chance(0.15) {
